@@ -987,3 +987,102 @@ func init() {
 		return out
 	}
 }
+
+// ---------------------------------------------------------------------------------------
+// C15: the unwrap table is a cache of annotations.GetUnwrapField. Every insertion into a
+// map[string]*annotations.UnwrapFieldInfo in the generator packages must have the shape
+//     info, err := annotations.GetUnwrapField(msg) ... if info != nil { table[string(msg.Desc.FullName())] = info }
+// (the value is the result of GetUnwrapField on the message whose full name is the key), which is what the
+// hypothesis spec.tableSound of collectUnwrapMapFields' contract states.
+
+func init() {
+	structuralRules["c15.unwrap_table_writers"] = func(w *World) []OblResult {
+		var probs []string
+		sites := 0
+		for _, fi := range w.Funcs {
+			if fi.Decl.Body == nil || fi.Obj.Pkg() == nil || !strings.HasPrefix(fi.Obj.Pkg().Path(), modPath) {
+				continue
+			}
+			info := fi.Pkg.TypesInfo
+			// variables assigned from annotations.GetUnwrapField(x): var -> text of x
+			fromGet := map[types.Object]string{}
+			ast.Inspect(fi.Decl.Body, func(n ast.Node) bool {
+				as, ok := n.(*ast.AssignStmt)
+				if !ok || len(as.Rhs) != 1 {
+					return true
+				}
+				call, ok := as.Rhs[0].(*ast.CallExpr)
+				if !ok || len(call.Args) != 1 {
+					return true
+				}
+				if sel, ok := call.Fun.(*ast.SelectorExpr); ok && sel.Sel.Name == "GetUnwrapField" {
+					if id, ok := as.Lhs[0].(*ast.Ident); ok {
+						obj := info.Defs[id]
+						if obj == nil {
+							obj = info.Uses[id]
+						}
+						if obj != nil {
+							fromGet[obj] = types.ExprString(call.Args[0])
+						}
+					}
+				}
+				return true
+			})
+			ast.Inspect(fi.Decl.Body, func(n ast.Node) bool {
+				as, ok := n.(*ast.AssignStmt)
+				if !ok {
+					return true
+				}
+				for i, l := range as.Lhs {
+					ix, ok := l.(*ast.IndexExpr)
+					if !ok {
+						continue
+					}
+					mt, ok := info.TypeOf(ix.X).Underlying().(*types.Map)
+					if !ok || !strings.HasSuffix(mt.Elem().String(), "annotations.UnwrapFieldInfo") {
+						continue
+					}
+					sites++
+					if i >= len(as.Rhs) {
+						probs = append(probs, "multi-value insertion at "+w.pos(as.Pos()))
+						continue
+					}
+					vid, ok := as.Rhs[i].(*ast.Ident)
+					if !ok {
+						probs = append(probs, "inserted value is not a variable at "+w.pos(as.Pos()))
+						continue
+					}
+					src, ok := fromGet[info.Uses[vid]]
+					if !ok {
+						probs = append(probs, "inserted value "+vid.Name+" does not come from annotations.GetUnwrapField at "+w.pos(as.Pos()))
+						continue
+					}
+					// the key: string(<src>.Desc.FullName()) directly or through a variable initialised with it
+					keyText := types.ExprString(ix.Index)
+					want := "string(" + src + ".Desc.FullName())"
+					if keyText != want {
+						okKey := false
+						if kid, isId := ix.Index.(*ast.Ident); isId {
+							ast.Inspect(fi.Decl.Body, func(m ast.Node) bool {
+								if a2, ok := m.(*ast.AssignStmt); ok && len(a2.Lhs) == 1 && len(a2.Rhs) == 1 {
+									if id2, ok := a2.Lhs[0].(*ast.Ident); ok && id2.Name == kid.Name && types.ExprString(a2.Rhs[0]) == want {
+										okKey = true
+									}
+								}
+								return true
+							})
+						}
+						if !okKey {
+							probs = append(probs, "key "+keyText+" is not the full name of the message "+src+" at "+w.pos(as.Pos()))
+						}
+					}
+				}
+				return true
+			})
+		}
+		if sites == 0 {
+			probs = append(probs, "no insertion into an unwrap table found (rule out of date)")
+		}
+		return []OblResult{structResult("C15.unwrap_table.writers", fmt.Sprintf("all %d insertions into unwrap tables store annotations.GetUnwrapField(m) under m's full name (the table is a cache of the definitions)", sites), probs)}
+	}
+}
